@@ -1,30 +1,18 @@
 package finalizers
 
 import (
-	"crypto"
-
 	"github.com/go-jose/go-jose/v4"
+
+	"github.com/dadrus/heimdall/internal/watcher"
 )
 
-// VerifC11SignerHash is jwtSigner.Hash for a signer holding the given key id, algorithm and issuer (C11, white box).
-func VerifC11SignerHash(kid, alg, iss string) []byte {
-	s := &jwtSigner{iss: iss, jwk: jose.JSONWebKey{KeyID: kid, Algorithm: alg}}
-
-	return s.Hash()
+// VerifC11Signer is what the C11 check needs of a signer: its hash and (keyholder.KeyHolder) its keys.
+type VerifC11Signer interface {
+	Hash() []byte
+	Keys() []jose.JSONWebKey
 }
 
-// VerifC11FinalizerSigner tells what the signer of a jwt finalizer feeds into its hash: key id, algorithm, issuer
-// and the thumbprint of the key.
-func VerifC11FinalizerSigner(f Finalizer) (string, string, string, []byte, bool) {
-	jf, ok := f.(*jwtFinalizer)
-	if !ok {
-		return "", "", "", nil, false
-	}
-
-	jf.signer.mut.RLock()
-	defer jf.signer.mut.RUnlock()
-
-	thumbprint, _ := jf.signer.jwk.Thumbprint(crypto.SHA256)
-
-	return jf.signer.jwk.KeyID, jf.signer.jwk.Algorithm, jf.signer.iss, thumbprint, true
+// VerifC11NewSigner creates a signer with its constructor (C11, white box only in that the constructor is unexported).
+func VerifC11NewSigner(path, name string, fw watcher.Watcher) (VerifC11Signer, error) {
+	return newJWTSigner(&SignerConfig{Name: name, KeyStore: KeyStore{Path: path}}, fw)
 }
